@@ -32,7 +32,7 @@ CHECKS = {
    note='AF_UNIX sockets only; a second harness forces short writes on the send side (24 KiB window, minimal SO_SNDBUF, the peer drains in every sequence of 1500/4096/9000-byte chunks) and drives the datagram packet receiver (all sequences of <=3-4 datagrams of sizes 1,3,8,9 into 8/12-byte buffers, consume or accumulate policy); notify / accept / connect handlers are not driven; one loop thread; time is owned by the harness.'),
  'C14': dict(engine='E4-enum', category='exploration', design='DESIGN.md 6, 9/C14',
    technique='small-scope exhaustive input enumeration of the real encoders/decoders against independent references (bounded exhaustive exploration)',
-   text='All values of 8/16-bit integers and the boundary set of wider types, all byte strings up to length 2-3 plus structural alphabets through Base64/hex/XML/URL/CRC, each compared with an independent reference and round-tripped.',
+   text='All values of 8/16-bit integers and the boundary set of wider types (decimal formatters/parsers and the 20 hex parsers), all byte strings up to length 2-3 plus structural alphabets through Base64 (incl. a junk byte at every position for the tolerant decoder), hex, XML entities, URL unescaping under 5 percent-encoders, every CRC table entry and all 8 CRC variants over lengths 0..129 x alignments x split points: each compared with an independent reference (snprintf, bit-accumulator Base64, bitwise Rocksoft-model CRC self-checked against catalogue values, zlib) and round-tripped; reported lengths must equal the bytes produced.',
    note='Values outside the enumerated alphabets/lengths are not covered; references: snprintf, bit-accumulator Base64, bitwise CRC written in the harness.'), 'C20': dict(engine='E4-enum', category='exploration', design='DESIGN.md 6, 9/C20, harness/C20/NOTES.md',
    technique='complete walk of a finite RFC 7230/3986 grammar (request lines, status lines, header blocks, all single smuggling edits) through the real parser, compared with an independent ABNF reference parser (bounded exhaustive exploration)',
    text='Every request line / status line / header block the finite generator can produce (quick: blocks of <=3 fields, thorough <=4) plus every single edit introducing a listed smuggling pattern is parsed by the real http.c; returned spans must equal an independent reference parser and be sub-spans of the input, header lookup must return exactly the case-insensitively matching fields (OWS trimmed, obs-fold honoured) with the true count, and http_req_sec_chk must reject iff a listed pattern is present.',
@@ -60,7 +60,10 @@ CHECKS = {
    note='Lenient acceptance the documentation is silent on is counted, not judged; non-contiguous masks, scope ids, UNIX paths with special characters are outside; see harness/C18/NOTES.md.'), 'C02': dict(engine='E4-enum', category='exploration', design='DESIGN.md 6, 7, 9/C02, harness/C02/NOTES.md',
    technique='small-scope exhaustive enumeration over whole groups of 12 synthetic curves (all point pairs, all scalars) and operand/scalar alphabets on the 32 built-in curves, repeated for every member of an explicit build-configuration matrix, against a textbook affine-law oracle (native integers / Python ints)',
    text='On 8-bit-field synthetic curves every ordered pair (P,Q) incl. infinity for add/sub, every P for doubling, every scalar 0..max(n,2^m-1) for base-point and unknown-point multiplication, every (k1,k2) on the smallest groups for twin multiplication; operand and scalar alphabets on 16-bit-field and the 32 built-in curves; quick 13 builds covering every macro value once, thorough 324 builds (coordinates x fixed-point / unknown-point / twin algorithm x window width x digit width). Every result must equal the reference point and lie on the curve; non-zero rc on valid operands is a violation.',
-   note='Scalars and points outside the alphabets on real-size curves are not covered; window wider than the digit, Barrett reduction and BN_CC_MULL_DIV off are outside; affine + interleaved twin does not link (reported as skipped); see harness/C02/NOTES.md.'),
+   note='Scalars and points outside the alphabets on real-size curves are not covered; window wider than the digit, Barrett reduction and BN_CC_MULL_DIV off are outside; affine + interleaved twin does not link (reported as skipped); see harness/C02/NOTES.md.'), 'C12': dict(engine='E4-enum', category='exploration', design='DESIGN.md 6, 9/C12, harness/C12/NOTES.md',
+   technique='small-scope exhaustive enumeration: every byte string over a per-function alphabet up to a length bound as an exact-size heap copy (ASan redzones / PROT_NONE guard pages at both ends), every output capacity 0..need+1, canary-checked output arenas, CPU watchdog',
+   text='Base64, hex, all num2str/str2num/strh2num functions, UTF-8, ASN.1, bencode (incl. deep nesting), XML extraction and entity coding, INI parse/generate/set, buf2args, line iteration, the mem_* search/replace helpers and CRC are called on every input of their scope with every capacity: no read outside the input, no write outside the capacity, the reported size is sufficient, an exactly sized buffer is accepted, the call returns.',
+   note='Inputs outside the per-target alphabets/lengths are not covered; returned extents that the function only reports (asn_parse data_size) are not judged; see harness/C12/NOTES.md for the table and the 11 fixes it led to.'),
 }
 
 REASON_WIP = 'check not finished yet in this session (harness under construction; see DESIGN.md section 13)'
